@@ -2,7 +2,7 @@
    correspondence check; no theorem depends on this file). *)
 From GB Require Import Base.Prelude Base.DecText Base.Sexp.
 From GB Require Import Model.Header Spec.EncHeader Model.DispatchCell.
-From GB Require Import Model.DispatchGtid Model.DispatchMarshal Model.DispatchStream.
+From GB Require Import Model.DispatchGtid Model.DispatchMarshal Model.DispatchStream Model.DispatchConn.
 From Coq Require Import String.
 Open Scope Z_scope.
 
@@ -48,7 +48,7 @@ Fixpoint first_some (fs : list (bytes -> list val -> option val)) (op : bytes) (
 (* JSON printer used by cells of type JSON; replaced by Model/Json.v when present *)
 Definition jsonp_stub (b : bytes) : res bytes := Err EJson.
 
-Definition subs : list (bytes -> list val -> option val) := [dispatch_cell jsonp_stub; dispatch_stream jsonp_stub; dispatch_enc; dispatch_gtid; dispatch_marshal].
+Definition subs : list (bytes -> list val -> option val) := [dispatch_cell jsonp_stub; dispatch_stream jsonp_stub; dispatch_enc; dispatch_conn; dispatch_gtid; dispatch_marshal].
 
 Definition dispatch (op : bytes) (args : list val) : val :=
   match first_some subs op args with
